@@ -1,2 +1,204 @@
-// Package c08 will hold the check for property C08.
+// Package c08 decides C08: the per-mailbox message cap and the memory store's total size limit
+// evict oldest-first and only what is necessary, and the store's accounting never drifts.
+// Sequential histories of deliveries of varying sizes, removals and purges are applied to a real
+// store; after EVERY operation the complete store state must equal the reference model with the
+// same cap and limit (internal/model), and the message just delivered must be retrievable iff the
+// model kept it.  Generator and executor are shared with C07 (internal/c07).
 package c08
+
+import (
+	"fmt"
+	"os"
+	"strconv"
+	"strings"
+	"time"
+
+	"github.com/inbucket/inbucket/v3/pkg/config"
+	"github.com/inbucket/inbucket/v3/pkg/extension"
+
+	"verifharness/internal/c07"
+	"verifharness/internal/fw"
+	"verifharness/internal/sut"
+)
+
+type cfg struct {
+	backend string
+	cap     int
+	maxkb   int // 0 = no size limit configured
+}
+
+func (c cfg) String() string {
+	kb := "none"
+	if c.maxkb > 0 {
+		kb = strconv.Itoa(c.maxkb)
+	}
+	return fmt.Sprintf("%s/cap=%d/maxkb=%s", c.backend, c.cap, kb)
+}
+
+var configs = func() []cfg {
+	var out []cfg
+	for _, cp := range []int{0, 1, 2, 3, 10} {
+		for _, kb := range []int{0, 1, 2, 8} {
+			out = append(out, cfg{"mem", cp, kb})
+		}
+	}
+	// The size limit exists in the memory store only; the file store gets every cap.
+	for _, cp := range []int{0, 1, 2, 3, 10} {
+		out = append(out, cfg{"file", cp, 0})
+	}
+	return out
+}()
+
+func init() {
+	fw.Register(&fw.Prop{
+		ID:    "C08",
+		Level: "exploration",
+		Rule: "sequential histories of 50-400 ops generated from (seed, case index) for every configuration cap{0,1,2,3,10} x " +
+			"maxkb{none,1,2,8} on the memory store and cap{0,1,2,3,10} on the file store (25 configurations, case i uses configuration " +
+			"i mod 25): 1-5 mailboxes, deliveries of 1 byte .. 1.5x the limit (incl. exactly limit-1, limit, limit+1), interleaved " +
+			"removals (live, already removed, never issued), purges, mark-seen and lookups.  After every operation every mailbox is " +
+			"listed and compared with the reference model with the same cap and limit (survivors, order, metadata, sum of sizes <= " +
+			"limit), GetMessage(id just returned) must succeed iff the model kept the new message, and a delivery larger than the whole " +
+			"limit must fail and change nothing.  A case is non-trivial when the " +
+			"model evicted at least one message and a later delivery was kept; distinct by (configuration, eviction/removal features " +
+			"reached, number of mailboxes).",
+		Assumptions: []string{
+			"histories are sequential: AddMessage waits for the size enforcer (enforcerDeliver blocks), so the state is settled when it returns",
+			"sizes are the number of bytes of the Delivery reader, which is what both stores keep",
+			"the model applies the cap first (oldest of the mailbox), then the size limit (globally oldest) - the order that evicts the least",
+			"a message larger than the whole limit is refused by AddMessage with an error and leaves the store exactly unchanged (nothing stored, nothing evicted)",
+			"maxkb is passed through cfg.Params[\"maxkb\"], the cap through cfg.MailboxMsgCap, as documented in doc/config.md",
+		},
+		MinObs: func(tier string) map[string]int64 {
+			k := int64(1)
+			if tier == "thorough" {
+				k = 15
+			}
+			m := map[string]int64{
+				"distinct_nontrivial":                       150 * k,
+				"mem/evict:cap":                             5000 * k,
+				"mem/evict:size":                            5000 * k,
+				"file/evict:cap":                            2000 * k,
+				"mem/adds_kept_after_earlier_evictions":     10000 * k,
+				"mem/adds_refused_larger_than_limit":        300 * k,
+				"mem/feat:cap-and-size-eviction-in-one-add": 200 * k,
+				"mem/feat:size-eviction-from-other-mailbox": 1000 * k,
+				"mem/feat:size-eviction-of-several":         500 * k,
+				"mem/removed":                               2000 * k,
+				"mem/purged_messages":                       1000 * k,
+				"mem/listings_compared":                     100000 * k,
+				"file/listings_compared":                    20000 * k,
+				"histories_cap_and_limit_with_removals":     50 * k,
+			}
+			for _, cf := range configs {
+				m["config:"+cf.String()] = 10 * k
+			}
+			return m
+		},
+		ChildTimeout: func(tier string) time.Duration {
+			if tier == "thorough" {
+				return 150 * time.Minute
+			}
+			return 25 * time.Minute
+		},
+		Run: run,
+	})
+}
+
+func run(c *fw.Ctx) {
+	n := c.N(25*80, 25*1600)
+	c.Cases("hist", n, func(i int, r *fw.Rand) {
+		ok, dump := c.Within(10*time.Minute, func() { runHistory(c, i, r) })
+		if !ok {
+			c.Hang("store-operation", "a history did not finish within the watchdog (configuration "+configs[i%len(configs)].String()+")", dump)
+		}
+	})
+}
+
+var weights = c07.Weights{Add: 56, Get: 5, Latest: 3, List: 2, Seen: 4, Remove: 21, Purge: 5, Visit: 4}
+
+func runHistory(c *fw.Ctx, idx int, r *fw.Rand) {
+	cf := configs[idx%len(configs)]
+	c.Count("config:"+cf.String(), 1)
+	names := c07.PickNames(r, r.Range(1, 5))
+	nops := r.Range(50, 400)
+	limit := int64(cf.maxkb) * 1024
+	// Body sizes: from 1 byte to 1.5x the limit, with the boundary values.
+	ref := int(limit)
+	if ref == 0 {
+		ref = 2048
+	}
+	mode := r.Intn(3) // 0 mixed, 1 mostly small (many messages under the limit), 2 mostly large
+	sizeFn := func(r *fw.Rand) int {
+		w := []int{55, 25, 10, 5, 5}
+		switch mode {
+		case 1:
+			w = []int{85, 10, 3, 1, 1}
+		case 2:
+			w = []int{20, 30, 30, 10, 10}
+		}
+		switch r.Weighted(w) {
+		case 0:
+			return r.Range(1, ref/8)
+		case 1:
+			return r.Range(ref/8, ref/2)
+		case 2:
+			return r.Range(ref/2, ref)
+		case 3:
+			return r.Range(ref+1, ref+ref/2)
+		default:
+			return []int{1, ref - 1, ref, ref + 1, ref / 2, ref/2 + 1}[r.Intn(6)]
+		}
+	}
+	ops := c07.GenOps(r, names, nops, weights, fmt.Sprintf("c08-%d", idx), sizeFn, false)
+	boxes := c07.BoxTexts(names)
+
+	sc := config.Storage{Type: "memory", Params: map[string]string{}, MailboxMsgCap: cf.cap}
+	if cf.maxkb > 0 {
+		sc.Params["maxkb"] = strconv.Itoa(cf.maxkb)
+	}
+	if cf.backend == "file" {
+		dir := c.TempDir("c08fs")
+		defer os.RemoveAll(dir)
+		sc.Type = "file"
+		sc.Params["path"] = dir
+	}
+	st, err := sut.NewStore(cf.backend, sc, extension.NewHost())
+	if err != nil {
+		panic(err)
+	}
+	e := c07.NewExec("C08", cf.backend, cf.String(), st, cf.cap, limit, boxes)
+	if cf.backend == "file" {
+		e.ContentEvery = 8
+	}
+	for _, op := range ops {
+		e.Apply(op)
+		if e.Dead() {
+			break
+		}
+	}
+	if !e.Dead() {
+		e.Step++
+		if e.VerifyAll("at-end", "", true) {
+			e.Visit(0, true)
+		}
+	}
+	c07.Report(c, e, cf.backend+"/")
+	evictions := e.Counts["evict:cap"] + e.Counts["evict:size"]
+	c.Count("cfgstat:"+cf.String()+":evictions", evictions)
+	if cf.cap > 0 && cf.maxkb > 0 && e.Counts["evict:cap"] > 0 && e.Counts["evict:size"] > 0 && e.Counts["removed"] > 0 {
+		c.Count("histories_cap_and_limit_with_removals", 1)
+	}
+	if evictions > 0 && e.Counts["adds_kept_after_earlier_evictions"] > 0 {
+		var fs []string
+		for _, f := range []string{"cap-eviction", "size-eviction", "size-eviction-of-several", "cap-and-size-eviction-in-one-add",
+			"size-eviction-from-other-mailbox", "add-larger-than-limit", "readd-after-purge",
+			"add-after-remove", "purge-nonempty", "remove-oldest", "remove-middle", "remove-newest", "remove-only-message", "remove-twice"} {
+			if e.Feats[f] {
+				fs = append(fs, f)
+			}
+		}
+		c.NonTrivial(fmt.Sprintf("%s|boxes=%d|%s", cf.String(), len(boxes), strings.Join(fs, ",")))
+	}
+	c.Sample(map[string]any{"config": cf.String(), "mailboxes": len(boxes), "ops": nops, "counts": e.Counts})
+}
